@@ -17,6 +17,9 @@ import (
 type replayFn func(cr *checkRun, r *OblResult, sr *SiteResult, rep map[string]interface{}) (bool, string)
 
 func tryReplay(cr *checkRun, r *OblResult, sr *SiteResult, rep map[string]interface{}) (bool, string) {
+	if os.Getenv("STFS_NO_REPLAY") != "" {
+		return false, "replay switched off for this run (STFS_NO_REPLAY)"
+	}
 	fn := topName(r.Obl.tr)
 	for suffix, op := range map[string]string{
 		"operations.Operations).Delete":  "Delete",
@@ -27,7 +30,9 @@ func tryReplay(cr *checkRun, r *OblResult, sr *SiteResult, rep map[string]interf
 		"operations.Operations).Restore": "Restore",
 	} {
 		if strings.HasSuffix(fn, suffix) && (r.Obl.Label == "drive-free" || r.Obl.Label == "ops-free" || strings.HasPrefix(r.Obl.Label, "pre.") || strings.HasPrefix(r.Obl.Label, "frame.")) {
-			return replayOpsFault(op, sr, rep)
+			if ok, msg := replayOpsFault(op, sr, rep); ok {
+				return ok, msg
+			}
 		}
 	}
 	if bat := batteryFor(r.Obl.Prop); bat != "" {
@@ -50,7 +55,9 @@ func batteryFor(prop string) string {
 		"C08": "fs_battery_test.go:VERIF_BATTERY=tamper",
 		"C09": "fs_battery_test.go:VERIF_BATTERY=ciphertext",
 		"C15": "fs_battery_test.go:VERIF_BATTERY=readonly",
-		"C07": "fs_model_test.go:VERIF_MODEL=rebuild",
+		"C07": "fs_model_test.go:VERIF_MODEL=reindex",
+		"C11": "race!fs_model_test.go:VERIF_MODEL=concurrent",
+		"C10": "race!fs_model_test.go:VERIF_MODEL=concurrent",
 		"C01": "fs_model_test.go:VERIF_MODEL=rebuild",
 		"C02": "fs_model_test.go:VERIF_MODEL=tree,random",
 		"C12": "fs_model_test.go:VERIF_MODEL=tree,random",
@@ -66,6 +73,9 @@ var batteryCache = map[string][2]string{}
 // classes, cut offsets, histories x record sizes, handle-call sequences x flags) is instantiated on the real code, next
 // to a reference where the property names one, and searched for a concrete failing input.
 func replayBattery(bats string, rep map[string]interface{}) (bool, string) {
+	if os.Getenv("STFS_NO_REPLAY") != "" {
+		return false, "replay switched off for this run (STFS_NO_REPLAY)"
+	}
 	var cmds, outs, msgs []string
 	for _, bat := range strings.Split(bats, ";") {
 		ok, msg, cmd, out := replayOneBattery(bat)
@@ -84,7 +94,8 @@ func replayBattery(bats string, rep map[string]interface{}) (bool, string) {
 }
 
 func replayOneBattery(bat string) (bool, string, string, string) {
-	parts := strings.SplitN(bat, ":", 2)
+	race := strings.HasPrefix(bat, "race!")
+	parts := strings.SplitN(strings.TrimPrefix(bat, "race!"), ":", 2)
 	tmplName, envSpec := parts[0], parts[1]
 	kv := strings.SplitN(envSpec, "=", 2)
 	tmpl := filepath.Join(verifDir, "replay", "templates", tmplName)
@@ -92,7 +103,11 @@ func replayOneBattery(bat string) (bool, string, string, string) {
 	if tmplName == "fs_model_test.go" {
 		run = "TestVerifReplay_Model$"
 	}
-	cmdline := kv[0] + "=<" + kv[1] + "> /verif/tools/replay.sh " + repoDir() + " pkg/fs '" + run + "' " + tmpl
+	script := "replay.sh"
+	if race {
+		script = "replay_race.sh"
+	}
+	cmdline := kv[0] + "=<" + kv[1] + "> /verif/tools/" + script + " " + repoDir() + " pkg/fs '" + run + "' " + tmpl
 	if c, ok := batteryCache[bat]; ok {
 		return c[0] != "", c[0], cmdline, c[1]
 	}
@@ -103,13 +118,17 @@ func replayOneBattery(bat string) (bool, string, string, string) {
 	var lines []string
 	var raw string
 	for _, val := range strings.Split(kv[1], ",") {
-		cmd := exec.Command("go", "test", "-overlay", ovFile, "-v", "-vet=off", "-count=1", "-timeout", "300s", "-run", run, "./pkg/fs/")
+		args := []string{"test", "-overlay", ovFile, "-v", "-vet=off", "-count=1", "-timeout", "300s", "-run", run, "./pkg/fs/"}
+		if race {
+			args = append([]string{"test", "-race"}, args[1:]...)
+		}
+		cmd := exec.Command("go", args...)
 		cmd.Dir = repoDir()
 		cmd.Env = append(os.Environ(), "GOFLAGS=-mod=mod", "GOPROXY=off", "GOSUMDB=off", "GOTOOLCHAIN=local", kv[0]+"="+val)
 		out, _ := cmd.CombinedOutput()
 		raw += string(out)
 		for _, l := range strings.Split(string(out), "\n") {
-			if strings.Contains(l, "FAILING-INPUT") || strings.HasPrefix(l, "panic:") {
+			if strings.Contains(l, "FAILING-INPUT") || strings.HasPrefix(l, "panic:") || strings.Contains(l, "WARNING: DATA RACE") || strings.HasPrefix(l, "fatal error:") {
 				lines = append(lines, strings.TrimSpace(l))
 			}
 		}
